@@ -8,6 +8,7 @@
              `date-time`, no `pattern`), an array or a map;
     enum     `enum` whose values are all strings or all integers of the int64 range (whatever `type` says:
              the generator looks at `enum` first);
+    const    untyped `const` of a string, a boolean or a number (`walkUntypedConstant`);
     any      no keyword the generator reads (`{}`, boolean-free), or an object without properties and
              without an `additionalProperties` schema;
     scalar   `type` boolean / string / number / integer with any `const`, `default`, bounds, lengths,
@@ -20,8 +21,8 @@
   and, in property / item / map-value position and as a definition, additionally
     T|null   `anyOf` / `oneOf` of exactly two branches, one `{type: null}`, the other one of the kinds above
              (not a reference to an array / map definition), or `type: [T, "null"]` with a scalar `T`.
-  Outside: `allOf`, unions of several non-null branches, `type` arrays of several non-null names, untyped
-  `const`, open objects (`additionalProperties` absent / true / schema next to properties), `type: null`
+  Outside: `allOf`, unions of several non-null branches, `type` arrays of several non-null names, `const: null`,
+  open objects (`additionalProperties` absent / true / schema next to properties), `type: null`
   alone, boolean schemas, references to definitions read as `any`, as a union, as a reference, as a constant.
 -/
 import Cog.Front.JsonSchemaValid
@@ -39,6 +40,15 @@ def enumValsOK : List JV → Bool
   | v :: vs => ((v :: vs).all isStrV) || ((v :: vs).all isIntV)
 
 def scalarTypeName (t : String) : Bool := t = "boolean" || t = "string" || t = "number" || t = "integer"
+
+/-- `{"const": v}` without `type`, read by `walkUntypedConstant` as a constant scalar (not `null`) -/
+def untypedConstOK (a : JAttrs) (addl : JAddl) : Bool :=
+  !(a.hasProps || a.hasPatternProps || !addlIsNone addl) &&
+  (match a.const with
+   | some (.str _) => true
+   | some (.bool _) => true
+   | some (.num t f) => (parseInt64 t).isSome || f ≠ ""
+   | _ => false)
 
 /-- `{"type": "null"}` as the generator reads it (the null branch of a pair) -/
 def isNullS : JS → Bool
@@ -94,7 +104,7 @@ def frag (defs : Defs) : Bool → JS → Bool
        | some vs => enumValsOK vs
        | none =>
          match a.types with
-         | [] => jsIsAny (.mk a oneOf anyOf allOf props addl items items2020)
+         | [] => jsIsAny (.mk a oneOf anyOf allOf props addl items items2020) || untypedConstOK a addl
          | [t] =>
            if t = "boolean" ∨ t = "number" ∨ t = "integer" then true
            else if t = "string" then a.pattern.isNone
